@@ -5,11 +5,31 @@ set_option linter.unusedSimpArgs false
 namespace Pcore.Lat
 variable (cfg : Cfg) (sfh : Bool)
 
-/-- Fragment of `C01_sound_partial`: hereditarily no `Type[..]`, `Iterable[..]` (their instance rules are assignability
-    questions: soundness there IS transitivity, C03) and no `Data` / `RichData`. -/
+/-- Stage-1 fragment of transitivity: hereditarily none of Unit (two-way assignable by definition), Tuple and Struct (positional /
+    counting rules, and the Struct-from-Hash rule that breaks transitivity), Iterable (no Struct / Enum arm), Data / RichData. -/
+def Ty.TF (t : Ty) : Prop :=
+  match t with
+  | .unit | .data | .richData | .tuple _ _ | .struct _ | .iterable _ => False
+  | .array e _ => Ty.TF e
+  | .hash k v _ => Ty.TF k ∧ Ty.TF v
+  | .variant ts => ∀ t', ∀ (_ : t' ∈ ts), Ty.TF t'
+  | .optional t' | .notUndef t' | .sensitive t' | .typ t' => Ty.TF t'
+  | _ => True
+termination_by t.w
+decreasing_by
+  all_goals simp_wf
+  all_goals (try simp only [Ty.w, Ty.wl, Ty.wm] at *)
+  all_goals first
+    | omega
+    | (have := Ty.w_lt_wl ‹_ ∈ _›; omega)
+
+/-- Fragment of `C01_sound_partial`: hereditarily no `Iterable[..]` (its instance rule is an assignability question about an inferred
+    type, and is genuinely unsound) and no `Data` / `RichData`.  `Type[T]` is allowed; its content `T` must lie in the fragment of
+    transitivity (`Ty.TF`, added as a separate condition `Ty.TypTF`), because soundness for `Type[..]` IS transitivity (C03). -/
 def Ty.Frag (t : Ty) : Prop :=
   match t with
-  | .typ _ | .iterable _ | .data | .richData => False
+  | .iterable _ | .data | .richData => False
+  | .typ t' => Ty.TF t'
   | .array e _ => Ty.Frag e
   | .hash k v _ => Ty.Frag k ∧ Ty.Frag v
   | .tuple ts _ => ∀ t', ∀ (_ : t' ∈ ts), Ty.Frag t'
@@ -61,6 +81,32 @@ theorem isPrefix_trans : ∀ (p q x : List Nat), isPrefix p q = true → isPrefi
       | cons c cs =>
         simp [isPrefix] at h1 h2 ⊢
         exact ⟨h1.1.trans h2.1, ih bs cs h1.2 h2.2⟩
+
+/-- every type used as a value inside `v` lies in the transitivity fragment and is well-formed -/
+inductive Val.TyOK (cfg : Cfg) : Val → Prop
+  | undef : Val.TyOK cfg .undef
+  | dflt : Val.TyOK cfg .dflt
+  | bool (b) : Val.TyOK cfg (.bool b)
+  | int (i) : Val.TyOK cfg (.int i)
+  | float (f) : Val.TyOK cfg (.float f)
+  | str (s) : Val.TyOK cfg (.str s)
+  | regexp (s) : Val.TyOK cfg (.regexp s)
+  | binary (b) : Val.TyOK cfg (.binary b)
+  | tspan (n) : Val.TyOK cfg (.tspan n)
+  | typ (t) : t.TF → Ty.WF cfg t → Val.TyOK cfg (.typ t)
+  | obj (p) : Val.TyOK cfg (.obj p)
+  | sensitive (v) : Val.TyOK cfg v → Val.TyOK cfg (.sensitive v)
+  | array (vs) : (∀ x ∈ vs, Val.TyOK cfg x) → Val.TyOK cfg (.array vs)
+  | hash (es : List (Val × Val)) : (∀ e ∈ es, Val.TyOK cfg e.1) → (∀ e ∈ es, Val.TyOK cfg e.2) → Val.TyOK cfg (.hash es)
+
+theorem Val.TyOK.elems {cfg : Cfg} {vs : List Val} (h : Val.TyOK cfg (.array vs)) : ∀ x ∈ vs, Val.TyOK cfg x := by
+  cases h with | array _ h => exact h
+theorem Val.TyOK.keys {cfg : Cfg} {es : List (Val × Val)} (h : Val.TyOK cfg (.hash es)) : ∀ e ∈ es, Val.TyOK cfg e.1 := by
+  cases h with | hash _ h _ => exact h
+theorem Val.TyOK.vals {cfg : Cfg} {es : List (Val × Val)} (h : Val.TyOK cfg (.hash es)) : ∀ e ∈ es, Val.TyOK cfg e.2 := by
+  cases h with | hash _ _ h => exact h
+theorem Val.TyOK.inner {cfg : Cfg} {v : Val} (h : Val.TyOK cfg (.sensitive v)) : Val.TyOK cfg v := by
+  cases h with | sensitive _ h => exact h
 
 /-- "accepts Undef" is complete w.r.t. "undef is an instance": the test the NotUndef and Struct rules rely on -/
 theorem inst_undef_complete : ∀ (n : Nat) (b : Ty), b.w ≤ n → inst cfg sfh b .undef = true → asg cfg sfh b .undef = true := by
